@@ -142,6 +142,7 @@ type c12Op struct {
 	LEErr   error
 
 	harvested bool
+	cancelled bool // the driver cancelled the caller's context
 }
 
 func (op *c12Op) isPost() bool {
@@ -680,6 +681,26 @@ func (w *c12World) Options(s *kernel.Sim) []kernel.Option {
 				op := w.byName[p.Party]
 				c := p.Info.(*rtCall)
 				w.answer(p, op, c, w.mutate(op, c, w.honest(op, c)))
+			}})
+		}
+	}
+	for _, op := range w.ops {
+		// the caller of the sharded client gives up while some shard has not answered yet
+		if op.Kind != "t-get-roots" || op.harvested || op.cancelled || op.cancel == nil {
+			continue
+		}
+		waiting := false
+		for _, p := range parked {
+			if p.Party == op.Party {
+				waiting = true
+			}
+		}
+		if waiting {
+			op := op
+			opts = append(opts, kernel.Option{Key: "cancel " + op.Party, Weight: 1, Apply: func() {
+				op.cancelled = true
+				s.Fault("cancel")
+				op.cancel()
 			}})
 		}
 	}
